@@ -257,7 +257,8 @@ impl Mon {
                 Poll::Pending => {
                     self.facts.pending += 1;
                     if s.ended {
-                        return div("C08", format!("subscriber s{i} answered Pending after it had ended"));
+                        // polling a finished stream again is outside the properties
+                        return Ok(());
                     }
                     if !alive {
                         return div("C08", format!("subscriber s{i} is Pending although the vector was dropped"));
@@ -309,8 +310,8 @@ impl Mon {
                             SubStream::U(st) => st.as_mut().poll_next(&mut cx2).map(|o| o.is_some()),
                             SubStream::B(st) => st.as_mut().poll_next(&mut cx2).map(|o| o.is_some()),
                         };
-                        if again != Poll::Ready(false) {
-                            return div("C08", format!("subscriber s{i} answered {again:?} (is_some) after its end"));
+                        if again == Poll::Ready(true) {
+                            return div("C08", format!("subscriber s{i} yielded another item after its end"));
                         }
                     }
                     return Ok(());
@@ -671,14 +672,7 @@ fn step_vop(ob: &mut ObservableVector<Tracked>, vop: &VOp, mon: &mut Mon) -> Res
                 if mon.msgs.len() != n0 {
                     return div("C07", format!("abandoned transaction published {}", show_diffs(&mon.msgs[n0])));
                 }
-                // nobody may have been woken by it
-                for (i, s) in mon.subs.iter().enumerate() {
-                    if let Some((flag, at)) = &s.pending {
-                        if *at == n0 && flag.woken() {
-                            return div("C07", format!("subscriber s{i} was woken by an abandoned transaction"));
-                        }
-                    }
-                }
+                // (a spurious wake-up delivers nothing and is not held against it)
             }
         }
         VOp::DropSubs => {
@@ -729,9 +723,12 @@ fn step_vop(ob: &mut ObservableVector<Tracked>, vop: &VOp, mon: &mut Mon) -> Res
                 }
             }
             // C05: the messages of this call take the replica from before to after
+            // "exactly one diff" is stated for the direct mutators; through entry/entries/for_each only
+            // "the diffs take the replica from the state before to the state after"
+            let direct = !matches!(vop, VOp::ForEach(_) | VOp::Entries(_) | VOp::EntrySet(..) | VOp::EntryRemove(_));
             let mut r = before.clone();
             for msg in new {
-                if msg.len() != 1 {
+                if direct && msg.len() != 1 {
                     return div("C05", format!("direct call {} published a message with {} diffs", vop.show(), msg.len()));
                 }
                 for d in msg {
@@ -749,7 +746,7 @@ fn step_vop(ob: &mut ObservableVector<Tracked>, vop: &VOp, mon: &mut Mon) -> Res
             // an empty append changes nothing and is not among the documented no-ops: both "one
             // (harmless) diff" and "no diff" are accepted for it
             let empty_append = matches!(vop, VOp::Append(v) if v.is_empty());
-            if new.len() != want_msgs && !(empty_append && new.is_empty()) {
+            if direct && new.len() != want_msgs && !(empty_append && new.is_empty()) {
                 return div(
                     "C05",
                     format!("{} on {before_v:?} published {} message(s), expected {want_msgs}", vop.show(), new.len()),
